@@ -29,7 +29,8 @@ protected:
   bool ResultVarIsKnown() const { return prepro_.is_result_var_known(); }
   bool MapFind() {
     const auto i = GetConverter().MapFind(GetConstraint());
-    if (i>=0) {
+    if (i>=0 &&           // an unused (e.g., inlined) expression is not delivered
+        !GetConverter().GetConstraintKeeper((Constraint*)0).IsUnused(i)) {
       SetResultVar(GetConverter().
                    template GetConstraint<Constraint>(i).
                    GetResultVar());
